@@ -43,6 +43,25 @@ type Noti struct {
 	Pick  int `json:"pick,omitempty"`
 	Split int `json:"split,omitempty"`
 	Cut   int `json:"cut,omitempty"`
+	// Near: the first update, re-addressed by Pick to a stored leaf, carries
+	// the smallest change of the value stored there (next integer, next
+	// representable float, one more digit, ...) instead of its own value.
+	Near bool `json:"near,omitempty"`
+	// Star: the Cut trailing elements of a re-addressed delete are replaced by
+	// "*" instead of being dropped (a glob delete over the siblings).
+	Star bool `json:"star,omitempty"`
+	// Bulk adds N updates At/k<Start>..At/k<Start+N-1>[/Leaf] (relative to the
+	// prefix) with value V: sizes past the usual capacity steps (32, 64, 128).
+	Bulk *Bulk `json:"bulk,omitempty"`
+}
+
+// Bulk is a run of sibling leaves written by one notification.
+type Bulk struct {
+	At    []gn.Elem `json:"at,omitempty"`
+	Start int       `json:"start"`
+	N     int       `json:"n"`
+	Leaf  string    `json:"leaf,omitempty"`
+	V     int64     `json:"v"`
 }
 
 // Step is one operation on the cache.
@@ -133,7 +152,17 @@ func genElems(t *rapid.T, min, max int, glob, small bool) []gn.Elem {
 }
 
 func genVal(t *rapid.T) gn.Val {
-	switch rapid.IntRange(0, 11).Draw(t, "vkind") {
+	switch rapid.IntRange(0, 15).Draw(t, "vkind") {
+	case 12:
+		// pairs that differ only beyond the precision of a float32 / float64
+		return gn.Val{Kind: "decimal", F: 2, I: rapid.SampledFrom([]int64{5, 123456789, 123456790, 1677721600, 1677721700}).Draw(t, "digits")}
+	case 13:
+		return gn.Val{Kind: rapid.SampledFrom([]string{"int", "uint"}).Draw(t, "bigkind"),
+			I: rapid.SampledFrom([]int64{16777216, 16777217, 1 << 53, 1<<53 + 1, 1<<62 + 1}).Draw(t, "big")}
+	case 14:
+		return gn.Val{Kind: rapid.SampledFrom([]string{"jsonietf", "ascii"}).Draw(t, "textkind"), S: rapid.SampledFrom([]string{`{"a":1}`, `{"a": 1}`, "x"}).Draw(t, "text")}
+	case 15:
+		return gn.Val{Kind: "double", F: rapid.SampledFrom([]float64{1e16, 1e16 + 2, 0.1, 0.1 + 1e-12}).Draw(t, "closef")}
 	case 0, 1, 2:
 		return gn.Val{Kind: "int", I: int64(rapid.IntRange(0, 2).Draw(t, "i"))}
 	case 3:
@@ -202,10 +231,23 @@ func genNoti(t *rapid.T, thr int64, small bool) *Noti {
 		}
 	default: // empty notification
 	}
+	if thr == 0 && !n.Atomic && rapid.IntRange(0, 13).Draw(t, "bulk") == 0 {
+		// (not with a future threshold: every member of a multi-update
+		// notification is then an open decision, see decide)
+		n.Bulk = &Bulk{
+			At:    genElems(t, 0, 1, false, small),
+			Start: rapid.SampledFrom([]int{0, 0, 10, 30}).Draw(t, "bulk-start"),
+			N:     rapid.SampledFrom([]int{3, 20, 33, 40, 66, 70, 130}).Draw(t, "bulk-n"),
+			Leaf:  rapid.SampledFrom([]string{"", "", "a"}).Draw(t, "bulk-leaf"),
+			V:     int64(rapid.IntRange(0, 1).Draw(t, "bulk-v")),
+		}
+	}
 	if rapid.IntRange(0, 1).Draw(t, "relative") == 0 {
 		n.Pick = rapid.IntRange(1, 6).Draw(t, "pick")
 		n.Split = rapid.IntRange(0, 2).Draw(t, "split")
 		n.Cut = rapid.SampledFrom([]int{0, 0, 1, 2}).Draw(t, "cut")
+		n.Star = rapid.IntRange(0, 2).Draw(t, "star") == 0
+		n.Near = rapid.IntRange(0, 3).Draw(t, "near") == 0
 	}
 	// a path consisting of nothing at all is a hostile shape that belongs to C12
 	if !n.Atomic && len(n.Prefix) == 0 && n.Origin == "" {
